@@ -763,12 +763,15 @@ namespace Pistache::Http
 
     std::shared_ptr<Tcp::Peer> ResponseStream::peer() const
     {
-        if (peer_.expired())
+        // one lock(): the peer can be released by its worker thread between a
+        // test of expired() and a lock() that follows it
+        auto sp = peer_.lock();
+        if (!sp)
         {
             throw std::runtime_error("Write failed: Broken pipe");
         }
 
-        return peer_.lock();
+        return sp;
     }
 
     void ResponseStream::flush()
@@ -903,12 +906,15 @@ namespace Pistache::Http
 
     std::shared_ptr<Tcp::Peer> ResponseWriter::peer() const
     {
-        if (peer_.expired())
+        // one lock(): the peer can be released by its worker thread between a
+        // test of expired() and a lock() that follows it
+        auto sp = peer_.lock();
+        if (!sp)
         {
             throw std::runtime_error("Write failed: Broken pipe");
         }
 
-        return peer_.lock();
+        return sp;
     }
 
     DynamicStreamBuf* ResponseWriter::rdbuf() { return &buf_; }
